@@ -106,7 +106,7 @@ func init() {
 		return "CreateIndex on existing documents and DropIndex beside a prefix-named sibling index at every collection size 0..72 (thorough 300); and breadth-first search to a fixpoint: CreateIndex/DropIndex on fields x, xy, n, n.a (prefix pair and dotted pair) interleaved with inserts, updates (copying and in-place) and deletes; after every transition HasIndex/ListIndexes, sentinel errors, 48 probe queries served by each index (range, equality, sort-only in both directions) and the raw key set are compared with the reference model"
 	})
 	register("C12", "model_checking", func(run *ev.Run, tier string) string {
-		runSS(run, tier, []string{"ids"}, both, "", own("id", "err", "state", "apply", "error-changed-state", "rawkeys", "count"), nil)
+		runSS(run, tier, []string{"ids", "idforms"}, both, "", own("id", "err", "state", "apply", "error-changed-state", "rawkeys", "count", "indexquery"), nil)
 		return "breadth-first search to a fixpoint over an _id-focused alphabet on two collections sharing ids: inserts with supplied / missing / empty / malformed / non-string / duplicate ids (duplicates at every batch position), Save (new, existing, unknown id), ReplaceById (matching, mismatching), UpdateById/Update/UpdateFunc rewriting _id to an existing, a new and an invalid id; invariant in every state: FindById(c,id) is nil or has _id == id and is non-nil exactly for live ids, contents equal the reference model, generated ids are fresh canonical UUIDs"
 	})
 	register("C09", "model_checking", func(run *ev.Run, tier string) string {
